@@ -942,6 +942,22 @@ Proof.
     right. unfold a_is_multiple in Em. destruct (a_multiple_values a); [discriminate|reflexivity].
 Qed.
 
+Lemma items_pst_ok : forall its pst pos, wf_items c pst pos its = true -> pst_ok pst -> pst_ok (items_pst c pst pos its).
+Proof.
+  induction its as [|it its IH]; intros pst pos Hw Hp; [exact Hp|]. cbn [wf_items items_pst] in *.
+  apply andb_prop in Hw. destruct Hw as [Hw Hws]. apply (IH _ _ Hws). apply (item_pst_ok pst pos it Hw).
+Qed.
+
+Lemma apply_items_inv : forall its pst pos st st', wf_items c pst pos its = true -> pend_inv pst st ->
+  apply_items c pos its st = ROk st' -> pend_inv (items_pst c pst pos its) st'.
+Proof.
+  induction its as [|it its IH]; intros pst pos st st' Hw Hi H; cbn [wf_items items_pst apply_items] in *.
+  - inversion H; subst. exact Hi.
+  - apply andb_prop in Hw. destruct Hw as [Hw Hws].
+    destruct (apply_item c pos it st) as [st1|e s|n] eqn:E; cbn [rbind] in H; try discriminate.
+    apply (IH _ _ st1 st' Hws (apply_item_inv pst pos it st st1 Hw E) H).
+Qed.
+
 (** THE SIMULATION: the token loop on a rendered invocation is the invocation's meaning *)
 Theorem loop_items : forall its (rest : list bytes) pst pos vaf st,
   wf_items c pst pos its = true -> pst_ok pst -> pend_inv pst st -> fs_skip st = 0 ->
